@@ -6,6 +6,7 @@
  R16.2 single resolver: the usage database and the evaluator resolve paths through the same SymbolTable traversal
  R16.3 usages are recorded per path segment with the segment's own sub-span; definitions record the identifier's span
 """
+import json
 from . import lib
 
 CC = "mos_core::codegen::CodegenContext"
@@ -336,10 +337,44 @@ def r163(ctx, fx, rid_prefix="R16.3"):
         ctx.finding(rid, key, "add_symbol no longer records the definition's location", ads.where if ads else None)
 
 
+def r164(ctx, fx):
+    rid = ctx.rule("R16.4", "references and highlights are one set: FindReferencesHandler and DocumentHighlightRequestHandler select the definitions at the position the "
+                   "same way — Analysis::find_filter with a filter on DefinitionType::Symbol (an imported file is a definition that contains every position of "
+                   "the file, but not a symbol) — and both answer every place once (`unique` over the spans: what a macro defines exists once per invocation, at "
+                   "the same place)")
+    hs = {}
+    for f in fx.all_fns("mos"):
+        if f.d.get("impl_trait") == "mos::lsp::traits::RequestHandler" and f.path.endswith("::handle") and f.d.get("hir"):
+            who = (f.d.get("impl_self") or "").rsplit("::", 1)[-1]
+            if who in ("FindReferencesHandler", "DocumentHighlightRequestHandler"):
+                hs[who] = f
+    if len(hs) != 2:
+        ctx.fail_closed(rid, "FindReferencesHandler / DocumentHighlightRequestHandler not found")
+        return
+    for who, f in sorted(hs.items()):
+        body = f.hir["body"]
+        ff = [x for x, p in lib.hir_calls(body, "Analysis::find_filter")]
+        symbol_only = any("DefinitionType::Symbol" in repr(lib.hdesc(a)) or any("DefinitionType::Symbol" in str(lib.pat_key(q.get("pat", {}))) for q in lib.hwalk(a) if isinstance(q, dict) and "pat" in q)
+                          for x in ff for a in lib.hargs(x))
+        if not symbol_only:
+            symbol_only = any("DefinitionType::Symbol" in json.dumps(x) for x in ff)
+        once = any(x.get("k") == "mcall" and x.get("name") in ("unique", "unique_by", "dedup", "dedup_by_key", "dedup_by") for x in lib.hwalk(body)) or \
+            any("BTreeSet" in str(x.get("ty", "")) or "HashSet" in str(x.get("ty", "")) for x in lib.hwalk(body))
+        k = "%s|selection" % who
+        ctx.inst(rid, k, sample={"handler": who, "find_filter_on_symbols": symbol_only, "each_place_once": once})
+        if not symbol_only:
+            ctx.finding(rid, k, "%s takes every definition that contains the position: in an imported file that includes the file itself, whose `usages` are the import "
+                        "statements and whose range is the whole file — the answer is no longer the set of occurrences of the symbol" % who, f.where)
+        if not once:
+            ctx.finding(rid, k + "|once", "%s answers with one location per definition and usage without removing duplicates: the symbols of a macro exist once per "
+                        "invocation, all defined and used at the same places, so every place is reported once per invocation" % who, f.where)
+
+
 def run(ctx):
     fx = ctx.facts
     cg = lib.CallGraph(fx)
     r161(ctx, fx)
     r162(ctx, fx, cg)
     r163(ctx, fx)
+    r164(ctx, fx)
     ctx.not_decided("which occurrence binds to which definition on concrete programs; that find-references equals the inverse of go-to-definition; document highlights")
